@@ -324,7 +324,69 @@ fn run_slotmap_case(case: &[String]) -> String {
     format!("{{\"case\":{},\"results\":[{}]}}", jstr(head[1]), out.join(","))
 }
 
+fn parse_map(t: &[&str]) -> SlotMap {
+    let mut m = SlotMap::new(); let mut i = 0;
+    while i + 1 < t.len() { m.insert(slot_of_value(t[i].parse().unwrap()), slot_of_value(t[i + 1].parse().unwrap())); i += 2; }
+    m
+}
+fn show_map(m: &SlotMap) -> String { m.iter().map(|(k, v)| format!("{}>{}", value_of_slot(k), value_of_slot(v))).collect::<Vec<_>>().join(",") }
+
+#[cfg(slotted_egraphs_verif)]
+fn run_uf_case(case: &[String]) -> String {
+    // lines: entry <i> <parent> k v k v ... (in id order) | find <i> k v ...
+    use slotted_egraphs::verif_hooks::*;
+    let head: Vec<&str> = case[0].split_whitespace().collect();
+    let eg: EGraph<Lf, ()> = EGraph::new(());
+    let mut out: Vec<String> = Vec::new();
+    for line in &case[1..] {
+        let t: Vec<&str> = line.split_whitespace().collect();
+        let r = catch_unwind(AssertUnwindSafe(|| -> String {
+            match t[0] {
+                "entry" => { eg.verif_unionfind_set(Id(t[1].parse().unwrap()), AppliedId::new(Id(t[2].parse().unwrap()), parse_map(&t[3..]))); "ok".to_string() }
+                "find" => { let r = eg.find_applied_id(&AppliedId::new(Id(t[1].parse().unwrap()), parse_map(&t[2..]))); format!("{} {}", r.id.0, show_map(&r.m)) }
+                "raw" => { let r = eg.verif_unionfind_get(Id(t[1].parse().unwrap())); format!("{} {}", r.id.0, show_map(&r.m)) }
+                _ => panic!("natdiff: uf op"),
+            }
+        }));
+        out.push(jstr(&match r { Ok(s) => s, Err(_) => "panic".to_string() }));
+    }
+    format!("{{\"case\":{},\"results\":[{}]}}", jstr(head[1]), out.join(","))
+}
+#[cfg(slotted_egraphs_verif)]
+fn run_group_case(case: &[String]) -> String {
+    // lines: new k v k v .. | gen k v .. (collected until `build`) | build | add k v .. ; k v .. | contains k v .. | count | perms | orbit s | generators
+    use slotted_egraphs::verif_hooks::*;
+    let head: Vec<&str> = case[0].split_whitespace().collect();
+    let mut ident = SlotMap::new(); let mut gens: Vec<SlotMap> = Vec::new(); let mut g: Option<VerifGroup> = None;
+    let mut out: Vec<String> = Vec::new();
+    for line in &case[1..] {
+        let t: Vec<&str> = line.split_whitespace().collect();
+        let r = catch_unwind(AssertUnwindSafe(|| -> String {
+            match t[0] {
+                "identity" => { ident = parse_map(&t[1..]); "ok".to_string() }
+                "gen" => { gens.push(parse_map(&t[1..])); "ok".to_string() }
+                "build" => { g = Some(VerifGroup::new(&ident, gens.clone())); gens.clear(); "ok".to_string() }
+                "add" => { let mut set = Vec::new(); for part in line[4..].split(';') { let tt: Vec<&str> = part.split_whitespace().collect(); if !tt.is_empty() { set.push(parse_map(&tt)); } } g.as_mut().unwrap().add_set(set).to_string() }
+                "contains" => g.as_ref().unwrap().contains(&parse_map(&t[1..])).to_string(),
+                "count" => g.as_ref().unwrap().count().to_string(),
+                "perms" => { let mut v: Vec<String> = g.as_ref().unwrap().all_perms().iter().map(show_map).collect(); v.sort(); v.join(" | ") }
+                "generators" => { let mut v: Vec<String> = g.as_ref().unwrap().generators().iter().map(show_map).collect(); v.sort(); v.join(" | ") }
+                "orbit" => { let mut v: Vec<u32> = g.as_ref().unwrap().orbit(slot_of_value(t[1].parse().unwrap())).iter().map(|s| value_of_slot(*s)).collect(); v.sort(); v.iter().map(|x| x.to_string()).collect::<Vec<_>>().join(",") }
+                _ => panic!("natdiff: group op"),
+            }
+        }));
+        out.push(jstr(&match r { Ok(s) => s, Err(e) => format!("panic {}", if let Some(s) = e.downcast_ref::<String>() { s.clone() } else { "?".to_string() }) }));
+    }
+    format!("{{\"case\":{},\"results\":[{}]}}", jstr(head[1]), out.join(","))
+}
+#[cfg(not(slotted_egraphs_verif))]
+fn run_uf_case(_case: &[String]) -> String { "{\"error\":\"built without --cfg slotted_egraphs_verif\"}".to_string() }
+#[cfg(not(slotted_egraphs_verif))]
+fn run_group_case(_case: &[String]) -> String { "{\"error\":\"built without --cfg slotted_egraphs_verif\"}".to_string() }
+
 fn run_case(case: &[String]) -> String {
+    if case[0].starts_with("case uf:") { return run_uf_case(case); }
+    if case[0].starts_with("case group:") { return run_group_case(case); }
     if case[0].starts_with("case slotmap:") { return run_slotmap_case(case); }
     if case[0].starts_with("case slot:") { return run_slot_case(case); }
     if case[0].starts_with("case parse:") { return run_parse_case(case); }
